@@ -67,6 +67,9 @@ namespace sim
         size_t tape_pos = 0;
         bool yielding   = false;          // the running thread gave up the processor voluntarily (sim::yield)
         int target_hits = 0;
+        void *single_site = nullptr;      // single-site mode (instr_target_mod < 0)
+        long long single_seen = 0, single_index = 0;
+        int single_hits = 0;
         bool sticky_pending = false;      // set by a targeted pre-emption: the next choice starts a priority burst
         Th *sticky = nullptr;
         long long sticky_left = 0;
@@ -425,6 +428,15 @@ namespace sim
         sticky_pending = false;
         sticky = nullptr;
         sticky_left = 0;
+        single_site = nullptr;
+        single_seen = 0;
+        single_hits = 0;
+        if (c.instr_target_mod < 0)
+        {
+            Rng r;
+            r.seed(c.seed ^ 0x51E51E5ULL);
+            single_index = static_cast<long long>(r.next() % static_cast<unsigned long long>(-c.instr_target_mod));
+        }
         for (auto &e : site_tab) { e.site = nullptr; e.n = 0; }
         threads.clear();
         mutexes.clear();
@@ -462,7 +474,32 @@ namespace sim
         for (Th *t : threads) if (t != me && t->st == RUN) { other_runnable = true; break; }
         // (a targeted point is only spent when somebody else could actually run: start-up code executed alone would
         // otherwise use up the budget)
-        if (cfg.instr_target_mod > 0 && target_hits < cfg.instr_target_cap && other_runnable && !(sticky_left > 0 && sticky == me))
+        if (cfg.instr_target_mod < 0)
+        {
+            // single-site mode: the k-th distinct call site met after start-up (k seeded below -instr_target_mod) is THE target
+            // of this run; only it pre-empts (on its first 64 entries, while another thread is runnable), and the thread
+            // switched to gets a priority burst. One site per run means no interference between sites: a window that is hit
+            // with near certainty once its site is the target is found after about (#sites) runs.
+            if (st.steps > 150)
+            {
+                if (single_site == nullptr)
+                {
+                    if (site_count(site) == 1 && ++single_seen > single_index) single_site = site;
+                }
+                if (site == single_site && other_runnable && single_hits < 64)
+                {
+                    ++single_hits;
+                    ++st.instr_points;
+                    me->in_hook = true;
+                    yielding = true;
+                    sticky_pending = true;
+                    reschedule();
+                    me->in_hook = false;
+                    return;
+                }
+            }
+        }
+        else if (cfg.instr_target_mod > 0 && target_hits < cfg.instr_target_cap && other_runnable && !(sticky_left > 0 && sticky == me))
         {   // (the thread that owns a priority burst is not pre-empted at its own targeted sites: it would hand the burst back)
             // the *call site* is hashed, not the callee: one particular call of a hot helper (std::forward inside one
             // std::exchange) can be singled out
